@@ -8,6 +8,8 @@ from common import Check, coq_eval, coq_bool, impl_run, impl_run_parallel
 from common import coq_str as _coq_str
 import gen
 import coqmulti
+import gzip
+from c01 import FULL_CONFIG
 from c04 import tables_pre, expected_type, twin_guess, TARGS
 
 
@@ -92,9 +94,12 @@ def build_world(rng, variant, exts=None):
     items = {}          # selector -> {"kind", "size", "mtime", "sidecars": {ext: (bytes, cls)}}
     t0 = 1_700_000_000
     names = ["%02d.txt", "%02d.bin", "%02d.gif", "%02d", "%02d.tar.gz"]
+    names_blocks = {}
     for i in range(16):
         fn = "files/f" + names[(i + variant) % len(names)] % i
         data = ("document %d\n" % i).encode() * (1 + (i * 397 + variant * 13) % 3000)
+        if i in (0, 15):
+            data = b""                       # zero-byte documents (one without, one with every sidecar)
         tree.append({"path": fn, "data": data.decode("latin-1"), "mtime": t0 + i})
         it = {"kind": "file", "size": len(data), "mtime": t0 + i, "sidecars": {}, "exts": exts}
         dn = "dirs/d%02d" % i
@@ -113,12 +118,41 @@ def build_world(rng, variant, exts=None):
                 tree.append({"path": dn + "/" + ext, "data": c2[0].decode("latin-1"), "mtime": t0})
         items["/" + fn] = it
         items["/" + dn] = dt
+        # UMN decorations of the same items in their parent's listing: a .cap/<name> file or a merge
+        # block (Path=./name) in .names, with and without an Abstract= line
+        for kind_, path_, item_ in (("f", fn, it), ("d", dn, dt)):
+            how = (i + (0 if kind_ == "f" else 2) + variant) % 5
+            if how in (1, 2, 3, 4) and i not in (0,):
+                dec = {"name": "Decorated %s%02d %s" % (kind_, i, printable_line(rng, 6).strip() or "x")}
+                if how in (2, 4):
+                    dec["abstract"] = ["about %s%02d" % (kind_, i), "second " + (printable_line(rng, 10).strip() or "line")]
+                block = "Name=%s\n" % dec["name"]
+                if "abstract" in dec:
+                    block += "Abstract=%s\\\n%s\n" % tuple(dec["abstract"])
+                parent_, base_ = path_.rsplit("/", 1)
+                if how in (1, 2):
+                    tree.append({"path": parent_ + "/.cap/" + base_, "data": block.encode("utf-8").decode("latin-1"), "mtime": t0})
+                else:
+                    names_blocks.setdefault(parent_, []).append("Path=./%s\n%s" % (base_, block))
+                item_["decor"] = dec
     # directories get their mtime after everything has been written into them
     for i in range(16):
         for e in tree:
             if e["path"] == "dirs/d%02d" % i:
                 e["mtime"] = t0 + 100 + i
         items["/dirs/d%02d" % i]["mtime"] = t0 + 100 + i
+    for parent_, blocks_ in names_blocks.items():
+        tree.append({"path": parent_ + "/.names", "data": "\n".join(blocks_).encode("utf-8").decode("latin-1"), "mtime": t0})
+    # links to other places, with the awkward values a link file may carry
+    tree.append({"path": "links", "kind": "dir", "mtime": t0 + 52})
+    tree.append({"path": "links/.Links", "mtime": t0, "data": (
+        "Name=Port zero\nType=1\nPath=/x\nHost=other.example\nPort=0\n\n"
+        "Name=Plus host\nType=0\nPath=/elsewhere/doc\nHost=+\nPort=+\n\n"
+        "Name=\nType=0\nPath=/emptyname\nHost=third.example\nPort=7070\n\n"
+        "Name=Root of another server\nType=1\nPath=\nHost=fourth.example\nPort=70\n\n"
+        "Name=A URL\nType=h\nPath=URL:http://example.org/\n\n"
+        "Name=With abstract\nType=0\nPath=/y\nHost=fifth.example\nPort=70\nAbstract=remote abstract\n")})
+    tree.append({"path": "links/local.txt", "data": "", "mtime": t0})
     tree.append({"path": "mail.mbox", "data": MBOX, "mtime": t0})
     for ext, _ in EXTS[:2]:
         tree.append({"path": "mail.mbox" + ext, "data": "about the mailbox\n", "mtime": t0})
@@ -129,8 +163,36 @@ def build_world(rng, variant, exts=None):
                   "sidecars": {".abstract": (b"root abstract\nsecond line\n", "printable")}}
     items["/files"] = {"kind": "dir", "size": None, "mtime": t0 + 50, "sidecars": {}}
     items["/dirs"] = {"kind": "dir", "size": None, "mtime": t0 + 51, "sidecars": {}}
+    items["/links"] = {"kind": "dir", "size": None, "mtime": None, "sidecars": {}}
     # build_tree applies mtimes in reverse order of appearance: list parents first
     tree.sort(key=lambda e: (e.get("kind") != "dir", e["path"]))
+    return tree, items
+
+
+def build_gz_world(rng):
+    """documents a configured CompressedFileHandler decompresses on the fly: single- and multi-member
+    gzip files, an empty member first or last; next to an ordinary document"""
+    t0 = 1_700_000_000
+    a = ("first member line %d\n" % rng.randrange(1000)).encode() * 600       # ~12 KB
+    b = ("second member\n").encode() * 80                                     # ~1 KB
+    docs = {
+        "single.txt.gz": (gzip.compress(a, mtime=0), a),
+        "multi.txt.gz": (gzip.compress(a, mtime=0) + gzip.compress(b, mtime=0), a + b),
+        "multi3.txt.gz": (gzip.compress(b, mtime=0) + gzip.compress(a, mtime=0) + gzip.compress(b, mtime=0), b + a + b),
+        "emptylast.txt.gz": (gzip.compress(a, mtime=0) + gzip.compress(b"", mtime=0), a),
+        "emptyfirst.txt.gz": (gzip.compress(b"", mtime=0) + gzip.compress(a, mtime=0), a),
+        "empty.txt.gz": (gzip.compress(b"", mtime=0), b""),
+        "small.bin.gz": (gzip.compress(b"\x00\x01" * 50, mtime=0), b"\x00\x01" * 50),
+    }
+    tree = [{"path": "zz", "kind": "dir", "mtime": t0 + 9}]
+    items = {"/zz": {"kind": "dir", "size": None, "mtime": None, "sidecars": {}}}
+    for nm, (stored, plain) in docs.items():
+        tree.append({"path": "zz/" + nm, "data": stored.decode("latin-1"), "mtime": t0})
+        items["/zz/" + nm] = {"kind": "gz", "size": len(stored), "mtime": None, "sidecars": {}, "plain": plain}
+    tree.append({"path": "zz/plain.txt", "data": "plain\n", "mtime": t0})
+    items["/zz/plain.txt"] = {"kind": "file", "size": 6, "mtime": None, "sidecars": {}}
+    tree.append({"path": "zz/multi.txt.gz.abstract", "data": "a compressed document\n", "mtime": t0})
+    items["/zz/multi.txt.gz"]["sidecars"][".abstract"] = (b"a compressed document\n", "printable")
     return tree, items
 
 
@@ -285,13 +347,14 @@ def run(tier):
         tree, items = build_world(rng, v, wexts)
         reqs = []         # (form, selector, bytes, tls)
         sels = sorted(items) + ["/mail.mbox", "/mail.mbox|/MBOX-MESSAGE/1", "/mail.mbox|/MBOX-MESSAGE/2"]
-        for s in sels:
-            for form in ("!", "$", "+"):
+        for s in sels + ["/links"]:
+            # containers are asked twice: the second '$' is answered from the directory cache
+            for form in ("!", "$", "+") + (("$",) if s in ("/", "/files", "/dirs", "/links", "/dirs/d03") else ()):
                 proto = "sgopherplus" if (len(reqs) % 5 == 4) else "gopherplus"
                 data, tls = gen.request_bytes(proto, s, gplus=form)
                 reqs.append((form, s, data, tls))
         # the plain Gopher view of the same things (for the search)
-        for s in ["/", "/files", "/dirs", "/mail.mbox"] + ["/dirs/d%02d" % i for i in range(16)]:
+        for s in ["/", "/files", "/dirs", "/links", "/mail.mbox"] + ["/dirs/d%02d" % i for i in range(16)]:
             data, tls = gen.request_bytes("gopher", s)
             reqs.append(("plain", s, data, tls))
         # even worlds: listings show bare file names, so '!' and the parent's menu can be compared exactly;
@@ -301,6 +364,19 @@ def run(tier):
         jobs.append({"op": "c15_world", "tree": tree, "config": cfg,
                      "requests": [{"data": gen.lat(d), "tls": t} for _, _, d, t in reqs]})
         worlds.append((tree, items, reqs))
+    # one more world: the full handler list with a gzip decompressor configured
+    gtree, gitems = build_gz_world(rng)
+    greqs = []
+    for s_ in sorted(gitems):
+        for form in ("!", "$", "+") + (("$",) if s_ == "/zz" else ()):
+            data, tls = gen.request_bytes("gopherplus", s_, gplus=form)
+            greqs.append((form, s_, data, tls))
+    data, tls = gen.request_bytes("gopher", "/zz")
+    greqs.append(("plain", "/zz", data, tls))
+    jobs.append({"op": "c15_world", "tree": gtree, "config": FULL_CONFIG,
+                 "requests": [{"data": gen.lat(d), "tls": t} for _, _, d, t in greqs]})
+    worlds.append((gtree, gitems, greqs))
+    exact_worlds = {v for v in range(nworlds) if v % 2 == 0}
     wres = impl_run_parallel(jobs, chunks=len(jobs))
     for r in wres:
         if not r["ok"]:
@@ -325,6 +401,7 @@ def run(tier):
         chk.violation(rep, tag=tag)
 
     k_info, k_dir, k_items, k_pop, k_parse = [], [], [], [], []
+    first_dollar = {}
     n_or = 0
     default_mime = tables["default_mimetype"]
     guess = {sel: twin_guess(sel, TT) for _, items, _ in worlds for sel in items}
@@ -360,7 +437,8 @@ def run(tier):
                 lit = "(@None (list (str * (str * list str))))" if twin is None else "(Some [%s])" % "; ".join(
                     "(%s, (%s, %s))" % (coq_str(n), coq_str(i), coq_strlist(b)) for n, i, b in twin)
                 k_parse.append(((wi, form, sel, data, tls), "(%s, %s)" % (coq_str(rest), lit)))
-            elif isdir and len(o["writedir"]) == 1:
+            elif isdir and len(o["writedir"]) == 1 and not (
+                    tier == "quick" and form == "+" and sel.startswith("/dirs/d") and int(sel[-2:]) % 2):
                 wd = o["writedir"][0]
                 rend = "[" + "; ".join(coq_entry(x) for x in o["rendered"]) + "]"
                 ents = "[" + "; ".join(coq_entry(x) for x in wd["entries"]) + "]"
@@ -378,7 +456,7 @@ def run(tier):
                     report(wi, form, sel, data, tls, out, "item information does not parse as Gopher+ blocks", "info-unparsable")
                     continue
                 check_item(chk, report, (wi, form, sel, data, tls, out), blocks, sel, it, plain, guess, default_mime,
-                           exact_name=(wi % 2 == 0))
+                           exact_name=(wi in exact_worlds and not (it and it.get("decor"))))
             elif form == "$" and isdir:
                 if first != "+-2":
                     report(wi, form, sel, data, tls, out, "directory information not announced with +-2", "dir-first-line")
@@ -387,6 +465,13 @@ def run(tier):
                 if blocks is None:
                     report(wi, form, sel, data, tls, out, "directory information does not parse as Gopher+ blocks", "dir-unparsable")
                     continue
+                prev = first_dollar.get((wi, sel))
+                if prev is None:
+                    first_dollar[(wi, sel)] = out
+                elif prev != out:
+                    report(wi, form, sel, data, tls, out,
+                           "a repeated '$' request for an unchanged directory gets a different answer", "dir-answer-changes",
+                           first_answer_latin1=prev[:3000])
                 groups = group_items(blocks)
                 infos = [g[0][1] for g in groups if g and g[0][0] == "INFO"]
                 pl = plain.get(sel)
@@ -403,7 +488,8 @@ def run(tier):
                     fields = g[0][1].split("\t")
                     isel = fields[1] if len(fields) > 1 else None
                     if isel in items:
-                        check_item(chk, report, (wi, form, sel, data, tls, out), g, isel, items[isel], None, guess, default_mime)
+                        check_item(chk, report, (wi, form, sel, data, tls, out), g, isel, items[isel], None, guess, default_mime,
+                                   listing=True)
             else:
                 # "+" (or "$" on a document): the length prefix is exact or the unknown-length marker
                 mm = re.fullmatch(r"\+(-?\d+)", first)
@@ -417,6 +503,9 @@ def run(tier):
                            "plus-length", announced=n, body_bytes=len(body))
                 elif n < 0 and n != -2:
                     report(wi, form, sel, data, tls, out, "length marker is neither a length nor -2", "plus-first-line")
+                elif it and it["kind"] == "gz" and body != it["plain"]:
+                    report(wi, form, sel, data, tls, out, "body is not the decompressed document", "plus-body",
+                           body_bytes=len(body), expected_bytes=len(it["plain"]))
                 elif it and it["kind"] == "file" and n != it["size"]:
                     report(wi, form, sel, data, tls, out, "a stored file is not announced with its exact length",
                            "plus-length", announced=n, file_size=it["size"])
@@ -638,7 +727,7 @@ def run(tier):
     return chk.finish("proof")
 
 
-def check_item(chk, report, ctx, blocks, isel, it, plain, guess, default_mime, exact_name=True):
+def check_item(chk, report, ctx, blocks, isel, it, plain, guess, default_mime, exact_name=True, listing=False):
     """the property for one item: INFO = menu line, ADMIN, VIEWS(type,size), one block per sidecar"""
     wi, form, sel, data, tls, out = ctx
     names = [b[0] for b in blocks]
@@ -672,6 +761,14 @@ def check_item(chk, report, ctx, blocks, isel, it, plain, guess, default_mime, e
         return
     exts = it.get("exts", EXTS)
     want = ["INFO", "ADMIN", "VIEWS"] + [bn for ext, bn in exts if ext in it["sidecars"]]
+    # in a listing, a UMN .cap file / merge block renames the item and its Abstract= line replaces
+    # (or adds) the abstract; every other sidecar block stays
+    dec = it.get("decor") if listing else None
+    if dec and "abstract" in dec and "ABSTRACT" not in want:
+        want.append("ABSTRACT")
+    if dec and fields[0][1:] != dec["name"]:
+        report(wi, form, sel, data, tls, out, "listing does not show the name given in the item's .cap/.names block",
+               "item-decor-name", item=isel, expected=dec["name"])
     if names != want:
         report(wi, form, sel, data, tls, out, "blocks are not INFO, ADMIN, VIEWS and one per sidecar file",
                "item-blocks", item=isel, blocks=names, expected=want)
@@ -680,12 +777,23 @@ def check_item(chk, report, ctx, blocks, isel, it, plain, guess, default_mime, e
     if it["kind"] == "file":
         t = expected_type(tuple(guess[isel]), default_mime)
         wantv = ["%s: <%dk>" % (t, it["size"] // 1024)]
+    elif it["kind"] == "gz":
+        # decompressed on the fly: the inner type; the size is unknown or the size of what is sent
+        t = expected_type(tuple(guess[isel]), default_mime, {"gzip": "zcat"})
+        wantv = ["%s: <%dk>" % (t, len(it["plain"]) // 1024)]
+        if views == ["%s:" % t]:
+            wantv = views
     else:
         wantv = ["application/gopher+-menu:"]
     if views != wantv:
         report(wi, form, sel, data, tls, out, "+VIEWS does not name the item's MIME type and size", "item-views",
                item=isel, views=views, expected=wantv)
     for (n, inline, body), bn in zip(blocks[3:], want[3:]):
+        if dec and bn == "ABSTRACT" and "abstract" in dec:
+            if body != dec["abstract"]:
+                report(wi, form, sel, data, tls, out, "abstract given in the item's .cap/.names block is not what the listing shows",
+                       "item-decor-abstract", item=isel, expected=dec["abstract"], block_lines=body[:10])
+            continue
         ext = [e for e, b in exts if b == bn][0]
         content, cls = it["sidecars"][ext]
         fl = file_lines(content)
